@@ -297,10 +297,12 @@ type xPending struct {
 	done    chan xOut
 	out     *xOut
 	started chan struct{}
+	parked  bool
+	grace   time.Duration // how long settle yields before it looks at the goroutine dump
 }
 
 func xLaunch(id xCallID, f func() xOut) *xPending {
-	p := &xPending{id: id, done: make(chan xOut, 1), started: make(chan struct{})}
+	p := &xPending{id: id, done: make(chan xOut, 1), started: make(chan struct{}), grace: 400 * time.Microsecond}
 	go func() {
 		p.gid.Store(xSelfGID())
 		close(p.started)
@@ -319,45 +321,78 @@ func xLaunch(id xCallID, f func() xOut) *xPending {
 	return p
 }
 
-// settle waits until the call returned ("done") or is parked: "chan" (in `<-fc.release`),
-// "lock" (on a sync lock inside the file controller), "gate" (at the FS gate); "hang" after
-// the watchdog.
+// xParked classifies a goroutine dump entry: "chan" (parked in acquire*'s own receive on
+// fc.release), "lock" (parked on a sync lock taken by a fileController method), "gate" (at
+// the FS gate), "" (anything else, including transient states).
+func xParked(st, fr string) string {
+	if st == "" {
+		return ""
+	}
+	top := ""
+	for _, ln := range strings.Split(fr, "\n")[1:] {
+		if ln == "" || ln[0] == '\t' {
+			continue
+		}
+		if strings.HasPrefix(ln, "sync.") || strings.HasPrefix(ln, "runtime.") || strings.HasPrefix(ln, "internal/") {
+			continue
+		}
+		top = ln
+		break
+	}
+	switch {
+	case strings.HasPrefix(st, "chan receive") && strings.Contains(top, "xfFS).Open"):
+		return "gate"
+	case strings.HasPrefix(st, "chan receive") && strings.Contains(top, "domain.(*fileController).acquire"):
+		return "chan"
+	case (strings.Contains(st, "Mutex") || strings.HasPrefix(st, "semacquire") || strings.HasPrefix(st, "sync.")) &&
+		strings.Contains(top, "domain.(*fileController)."):
+		return "lock"
+	}
+	return ""
+}
+
+// settle waits until the call returned ("done") or is parked for good: "chan", "lock",
+// "gate" (seen twice in a row, see xParked); "hang" after the watchdog.
 func (p *xPending) settle(hang time.Duration) string {
-	deadline := time.Now().Add(hang)
-	for spin := 0; ; spin++ {
+	if p.out != nil {
+		return "done"
+	}
+	// most calls return within microseconds: yield before paying for a goroutine dump
+	t0 := time.Now()
+	for i := 0; ; i++ {
 		select {
 		case o := <-p.done:
 			p.out = &o
 			return "done"
 		default:
 		}
-		if p.out != nil {
+		if i%16 == 15 && time.Since(t0) > p.grace {
+			break
+		}
+		runtime.Gosched()
+	}
+	deadline := time.Now().Add(hang)
+	confirm := ""
+	for spin := 1; ; spin++ {
+		select {
+		case o := <-p.done:
+			p.out = &o
 			return "done"
+		default:
 		}
-		if spin >= 3 {
-			st, fr := xGoState(p.gid.Load())
-			switch {
-			case strings.HasPrefix(st, "chan receive") && strings.Contains(fr, "xfFS).Open"):
-				return "gate"
-			case strings.HasPrefix(st, "chan receive") && strings.Contains(fr, "fileController).acquire"):
-				// parked for good only if the receive is acquire*'s own (top frame)
-				top := fr[strings.Index(fr, "\n")+1:]
-				if strings.Contains(strings.SplitN(top, "\n", 2)[0], "fileController).acquire") {
-					return "chan"
-				}
-			case (strings.Contains(st, "Mutex") || strings.HasPrefix(st, "semacquire") || strings.HasPrefix(st, "sync.")) &&
-				strings.Contains(fr, "fileController)"):
-				return "lock"
+		if k := xParked(xGoState(p.gid.Load())); k != "" {
+			if k == confirm {
+				return k
 			}
+			confirm = k
+			time.Sleep(100 * time.Microsecond)
+			continue
 		}
+		confirm = ""
 		if time.Now().After(deadline) {
 			return "hang"
 		}
-		if spin < 10 {
-			runtime.Gosched()
-		} else {
-			time.Sleep(time.Duration(min(spin, 200)) * 10 * time.Microsecond)
-		}
+		time.Sleep(time.Duration(min(spin, 100)) * 20 * time.Microsecond)
 	}
 }
 
@@ -1110,8 +1145,21 @@ func (r *xReplayer) verify(i int, st xStep, counterBefore int) *xMismatch {
 	c := r.c
 	nk := len(st.Fs)
 	// still-parked calls must still be parked, in the behaviour's order
+	tokens := st.A == "closew" || st.A == "relr" || st.A == "gcr" || st.A == "gcw" || st.A == "gcfinish" ||
+		(len(st.X) > 2 && st.X[1]+st.X[2] > 0) || (len(st.X) > 0 && st.X[0] == 1)
 	for _, p := range r.pend {
-		if s := p.settle(c.hang); s != "chan" {
+		if !tokens && p.parked {
+			select {
+			case o := <-p.done:
+				p.out = &o
+			default:
+				continue
+			}
+		}
+		p.grace = 0
+		if s := p.settle(c.hang); s == "chan" {
+			p.parked = true
+		} else {
 			if s == "done" {
 				if p.out.w != nil {
 					_ = p.out.w.Close()
@@ -1352,6 +1400,16 @@ func (r *xReplayer) cleanup() {
 	}
 	for round := 0; round < 4 && len(all) > 0; round++ {
 		var rest []*xPending
+		// a reader starved by idle writer handles of small files never wakes: close those too
+		fc := r.db.fc
+		fc.writers.Lock()
+		for k, w := range fc.writers.open {
+			if w.tryAcquire() {
+				_ = w.HardClose()
+				delete(fc.writers.open, k)
+			}
+		}
+		fc.writers.Unlock()
 		for _, p := range all {
 			// wake it if it still waits
 			select {
@@ -1537,7 +1595,7 @@ func TestVerifFCReplay(t *testing.T) {
 	}
 	defer of.Close()
 	enc := json.NewEncoder(of)
-	_ = enc.Encode(map[string]any{"summary": true, "replayed": n, "bad": len(bad), "counters": total})
+	_ = enc.Encode(map[string]any{"summary": true, "replayed": n, "bad": len(bad), "counters": total, "goroutines_left": runtime.NumGoroutine()})
 	for k, r := range bad {
 		if k >= 200 {
 			break
